@@ -358,7 +358,8 @@ class NetworkService(ModelElement):
         """
         assert interface is not None
 
-        peers = interface.get_peers()
+        # only the service-side port created by connect_interface is ours to remove
+        peers = interface.get_peers(itype=InterfaceType.ServicePort)
         if peers is None or len(peers) == 0:
             return
 
@@ -432,8 +433,11 @@ class NetworkService(ModelElement):
         """
         assert(isinstance(ns, NetworkService))
         # see if they peer
-        sp = self.topo.graph_model.get_nodes_on_shortest_path(node_a=self.node_id, node_z=ns.node_id)
-        if len(sp) == 0:
+        sp = self.topo.graph_model.get_nodes_on_shortest_path(node_a=self.node_id, node_z=ns.node_id,
+                                                              rel=ABCPropertyGraph.REL_CONNECTS)
+        # peering services are connected as service - port - link - port - service; any other path
+        # (e.g. through interfaces of a node both services connect to) is not a peering
+        if len(sp) != 5:
             raise TopologyException(f"Network services {self.name} and {ns.name} do not peer!")
         # remove ConnectionPoints and link between them
         self.topo.graph_model.remove_cp_and_links(node_id=sp[1])
